@@ -9,7 +9,7 @@ PKG = "vdr/didnuts"
 HARNESS = ["vdr/didnuts/zz_verif_c09_test.go"]
 
 REQUIRED = ["accepted_create_sound", "accepted_create_signed_by_did_key", "accepted_update_sound",
-            "accepted_update_signed_by_controller_key", "callback_accepts_iff", "rejected_inert", "accepted_changes_own_did_only",
+            "accepted_update_signed_by_controller_key", "callback_accepts_iff", "resolvable_only_if_accepted", "rejected_inert", "accepted_changes_own_did_only",
             "controller_chain_bounded", "controller_cycle_refused", "deactivated_controller_rejected",
             "controllers_never_deactivated", "controller_versions_are_active", "validator_rules_partial", "validator_rules_embedded_witness", "removed_key_rejected", "removed_key_rejected_self_controlled",
             "validator_rules_sound_complete", "validator_rules_each_necessary",
